@@ -649,14 +649,14 @@ func main() {
 	wide := []alphabet{alphaWide, alphaWideA}
 
 	r.Cases("scripted", 16, hv, scripted)
-	r.Cases("rand/ascii", r.N(40000, 1600000), hv, cfg{als: small, minN: 1, maxN: 8, maxLen: 5}.run)
-	r.Cases("rand/utf8", r.N(40000, 1600000), hv, cfg{als: utf, minN: 1, maxN: 8, maxLen: 5}.run)
-	r.Cases("rand/fffd", r.N(20000, 800000), hv, cfg{als: fffd, minN: 1, maxN: 8, maxLen: 4}.run)
-	r.Cases("rand/wide", r.N(5000, 192000), hv, cfg{als: wide, minN: 11, maxN: 40, maxLen: 4}.run)
+	r.Cases("rand/ascii", r.N(40000, 1280000), hv, cfg{als: small, minN: 1, maxN: 8, maxLen: 5}.run)
+	r.Cases("rand/utf8", r.N(40000, 1280000), hv, cfg{als: utf, minN: 1, maxN: 8, maxLen: 5}.run)
+	r.Cases("rand/fffd", r.N(20000, 640000), hv, cfg{als: fffd, minN: 1, maxN: 8, maxLen: 4}.run)
+	r.Cases("rand/wide", r.N(5000, 153600), hv, cfg{als: wide, minN: 11, maxN: 40, maxLen: 4}.run)
 	r.Cases("rand/big", r.N(60, 3000), hv, cfg{als: []alphabet{alphaABC, alphaMixed, alphaSib, alphaWide, alphaWideA}, minN: 40, maxN: 400, maxLen: 8, textRunes: []int{400, 1500, 4000}}.run)
-	r.Cases("lookback", r.N(40000, 1600000), hv, lookbackCase)
-	r.Cases("chains", r.N(30000, 1120000), hv, chainCase)
-	r.Cases("nested", r.N(30000, 1120000), hv, nestedCase)
+	r.Cases("lookback", r.N(40000, 1280000), hv, lookbackCase)
+	r.Cases("chains", r.N(30000, 896000), hv, chainCase)
+	r.Cases("nested", r.N(30000, 896000), hv, nestedCase)
 
 	r.Require("pattern_text_pairs", 100000)
 	r.Require("replace_calls", 100000)
